@@ -222,6 +222,7 @@ def build_tu(vu, work, canary=None):
                 elif kind == "block":
                     e = X.extract_block(path, text, kv["start"], kv["end"], kv["head"],
                                         include_end=kv.get("include_end", "1") == "1")
+                    e.qualname = "block:" + pos[0]
                 else:
                     e = X.Extracted(path, "file:" + pos[0], text, 1, (0, len(text)))
                     e.name_off = 0
@@ -289,7 +290,7 @@ def build_tu(vu, work, canary=None):
                         e.rewrites.append("dropped %d lines matching %r" % (k, kv[key]))
             except X.ExtractionError as ex:
                 raise Undecided("extraction", str(ex))
-            if kind != "whole":
+            if kind == "extract":
                 # carry the source file's own using-declarations (file scope) along with the extract
                 # ... and its own system includes, where the std model has that header
                 for inc in re.findall(r'(?m)^#include\s*<([\w./]+)>', text):
